@@ -619,6 +619,11 @@ CORPUS = [
     _table_case([[["a", "a"]]], col_runs=True),
     _table_case([[["", "", "", "b", "b", "b", "", "c"]]], col_runs=True),
     _table_case([[["r", "r"], ["r", "r"], ["r", "r"]]], row_runs=True, col_runs=True),
+    # runs longer than the sheets of older applications are wide (256, 1024 columns) or high (65536 rows)
+    _table_case([[["w"] * 1030]], col_runs=True),
+    _table_case([[[""] * 1025 + ["x"], ["a"] + [""] * 255 + ["b"] * 257]], col_runs=True),
+    _table_case([[["a"] + [""] * 16382 + ["z"]]], col_runs=True),
+    _table_case([[["r", "s"]] * 1100 + [["", ""]] * 300 + [["t", ""]]], row_runs=True),
     _table_case([[["x  y"]]]),
     _table_case([[["x  y"]]], ws_runs_whole=True),
     _table_case([[["x y"]]], ws_all=True),
